@@ -12,6 +12,9 @@ import math
 
 from .. import tt
 from .. import semantic as S
+from .. import pollute
+
+BEFORE_CASE = pollute.wreck        # state-leak adversary: see vmon/pollute.py
 
 RULE = ("family x parameters x formula class: ordering principle N in 0..5 and graph ordering on every graph with <= 4 vertices x "
         "{plain,total,smart,knuth2,knuth3} x plant; pebbling on every DAG (topological order) with <= 5 vertices; stone s in 0..3 and "
@@ -666,8 +669,65 @@ def chunks(seq, k):
     return [seq[i:i + k] for i in range(0, len(seq), k)]
 
 
+def case_op_big(ctx, cls, N, vname, plant):
+    """Ordering principle on more than 256 elements (millions of clauses): a handful of total orders, evaluated in one
+    pass over the clauses.  Without planting every total order falsifies the formula; with it exactly the orders
+    whose least element is the last one satisfy it."""
+    from ..refmodels.names import eval_many
+    g = gens()
+    r = ctx.rng("c03opbig", cls, N, vname, plant)
+    kw = dict(VARIANTS)[vname]
+    desc = "OrderingPrinciple(%d,%s,plant=%s)[%s]" % (N, vname, plant, cls)
+    F = make(ctx, "op", cls, desc, g.OrderingPrinciple, N, plant=plant, **kw)
+    if F is None:
+        return
+    at = S.decode(ctx, "op", desc, F)
+    if at is None:
+        return
+    xs = at.get("x_{#,#}", {})
+    want = N * (N - 1) // 2 if kw["total"] or kw["smart"] else N * (N - 1)
+    if len(xs) != want or F.number_of_variables() != want:
+        ctx.violation("op:numvar", "%s has %d variables, expected %d" % (desc, F.number_of_variables(), want))
+        return
+    perms, exp = [], []
+    for i in range(10):
+        perm = list(range(1, N + 1))
+        if i >= 2:
+            r.shuffle(perm)
+        if i % 2 == 0:
+            perm.remove(N)
+            perm.insert(0, N)                   # the last element is the least one
+        if i == 9:
+            perm.remove(N)
+            perm.insert(1, N)                   # ... is the second least
+        perms.append(perm)
+        exp.append(bool(plant) and perm[0] == N)
+    pool = []
+    for perm in perms:
+        pos = {v: j for j, v in enumerate(perm)}
+        pool.append({var for (a, b), var in xs.items() if pos[a] < pos[b]})
+    got = eval_many(F, pool)
+    ctx.count("sampled_cases")
+    ctx.count("sampled_assignments", len(pool))
+    ctx.count("sampled_true_references", sum(exp))
+    ctx.count("sampled_false_references", len(exp) - sum(exp))
+    for perm, e, o in zip(perms, exp, got):
+        if e != o:
+            ctx.violation("op:sampled:%s" % ("satisfied-by-non-object" if o else "object-not-a-model"),
+                          "%s: the total order starting %r %s the formula, expected the opposite"
+                          % (desc, perm[:4], "satisfies" if o else "falsifies"))
+            break
+    ctx.judged(("op-big", N, vname, plant, cls), sample={"family": "op", "case": desc, "clauses": len(F), "orders": len(pool)})
+
+
 def workload(tier, seed):
     quick = tier == "quick"
+    # the expensive case first, so that it runs alongside everything else
+    yield "op_big", {"cls": "CNF", "N": 257, "vname": "smart", "plant": True}
+    if not quick:
+        yield "op_big", {"cls": "CNF", "N": 258, "vname": "smart", "plant": False}
+        yield "op_big", {"cls": "OPB", "N": 257, "vname": "smart", "plant": True}
+        yield "op_big", {"cls": "CNF", "N": 300, "vname": "smart", "plant": True}
     for cls in ("CNF", "OPB"):
         for N in range(0, 6 if quick else 7):
             yield "op", {"cls": cls, "N": N}
